@@ -1,4 +1,5 @@
 mod gen;
+mod guards;
 mod seq;
 mod types;
 
@@ -38,6 +39,7 @@ fn main() {
     match args[1].as_str() {
         "seq" => cmd_seq(&args),
         "seq-replay" => cmd_seq_replay(&args),
+        "guards" => cmd_guards(),
         other => {
             eprintln!("unknown command {}", other);
             std::process::exit(2);
@@ -137,4 +139,19 @@ fn cmd_seq_replay(args: &[String]) {
     for f in res.failures.iter() {
         println!("FAIL: {}", f);
     }
+}
+
+/// guards: JSON list of outcomes of calling every guard-accepting method with a foreign guard
+fn cmd_guards() {
+    let outs = guards::run();
+    let items: Vec<String> = outs
+        .iter()
+        .map(|o| {
+            format!(
+                "{{\"ty\":{},\"fn\":{},\"param\":{},\"populated\":{},\"panicked\":{},\"changed\":{}}}",
+                json_str(o.ty), json_str(o.func), json_str(o.param), o.populated, o.panicked, o.changed
+            )
+        })
+        .collect();
+    println!("[{}]", items.join(","));
 }
